@@ -96,7 +96,13 @@ fn decode_case(g: &mut Gen, ctx: &mut Ctx) -> CaseResult {
     let ty = *g.pick(&[MapTy::Header, MapTy::Header, MapTy::Key, MapTy::Claims]);
     ctx.classf(format!("decode:{:?}", ty));
     let base = match ty {
-        MapTy::Header => gen_header(g, &mut Faults::none(), 1),
+        MapTy::Header => {
+            // the map may be placed inside a counter-signature below (one level of nesting used up)
+            g.cs_level = 1;
+            let h = gen_header(g, &mut Faults::none(), 1);
+            g.cs_level = 0;
+            h
+        }
         MapTy::Key => gen_key(g, &mut Faults::none()),
         MapTy::Claims => gen_claims(g, &mut Faults::none()),
     };
@@ -112,7 +118,22 @@ fn decode_case(g: &mut Gen, ctx: &mut Ctx) -> CaseResult {
         };
         entries.push((k, v));
     }
-    let s = g.below(entries.len());
+    // mostly an existing (valid) label is repeated; sometimes the repeated key is itself not a valid
+    // label of this map (unregistered claim name, out-of-range integer, not a label at all): such a
+    // map is all the more to be rejected
+    let s = if g.ratio(1, 8) {
+        let bad = match (ty, g.below(3)) {
+            (MapTy::Claims, 0) | (MapTy::Claims, 1) => crate::gen::gen_unregistered(g, crate::registry::CWT_CLAIM_NAME, true),
+            (_, 0) => crate::gen::gen_out_of_range(g),
+            _ => crate::gen::gen_non_label(g),
+        };
+        let at = g.below(entries.len() + 1);
+        entries.insert(at, (bad, gen_value(g, 1, false)));
+        ctx.class("dup-of-invalid-key");
+        at
+    } else {
+        g.below(entries.len())
+    };
     let key = entries[s].0.clone();
     let val = match g.weighted(&[3, 3, 2]) {
         0 => entries[s].1.clone(),
